@@ -108,6 +108,7 @@ fn generate_variables_struct(
                         .first()
                         .map(|qual| !qual.is_required())
                         .unwrap_or(true),
+                    options,
                     query,
                 );
 
@@ -258,6 +259,7 @@ fn graphql_parser_value_to_literal<'doc, T>(
     value: &graphql_parser::query::Value<'doc, T>,
     ty: TypeId,
     is_optional: bool,
+    options: &GraphQLClientCodegenOptions,
     query: &BoundQuery<'_>,
 ) -> TokenStream
 where
@@ -286,7 +288,7 @@ where
         Value::List(inner) => {
             let elements = inner
                 .iter()
-                .map(|val| graphql_parser_value_to_literal(val, ty, false, query));
+                .map(|val| graphql_parser_value_to_literal(val, ty, false, options, query));
             quote! {
                 vec![
                     #(#elements,)*
@@ -295,7 +297,7 @@ where
         }
         Value::Object(obj) => ty
             .as_input_id()
-            .map(|input_id| render_object_literal(obj, input_id, query))
+            .map(|input_id| render_object_literal(obj, input_id, options, query))
             .unwrap_or_else(|| {
                 quote!(compile_error!(
                     "Object literal on a non-input-object field."
@@ -314,6 +316,7 @@ where
 fn render_object_literal<'doc, T>(
     object_map: &BTreeMap<T::Value, graphql_parser::query::Value<'doc, T>>,
     input_id: InputId,
+    options: &GraphQLClientCodegenOptions,
     query: &BoundQuery<'_>,
 ) -> TokenStream
 where
@@ -321,7 +324,12 @@ where
     T::Value: quote::ToTokens,
 {
     let input = query.schema.get_input(input_id);
-    let constructor = Ident::new(&input.name, Span::call_site());
+    // The name of the generated input struct.
+    let normalized_name = options.normalization().input_name(input.name.as_str());
+    let constructor = Ident::new(
+        shared::keyword_replace(normalized_name).as_ref(),
+        Span::call_site(),
+    );
     let fields: Vec<TokenStream> = input
         .fields
         .iter()
@@ -336,6 +344,7 @@ where
                     default_value,
                     r#type.id,
                     r#type.is_optional(),
+                    options,
                     query,
                 ),
                 None => quote!(None),
